@@ -383,6 +383,10 @@ class RegexVM:
                     if start <= ch_code <= end:
                         matched = True
                         break
+                    if self.ignorecase and start <= ord(ch.upper()) <= end:
+                        # Check both cases, like the positive class does
+                        matched = True
+                        break
 
                 if not matched:
                     sp += 1
